@@ -14,7 +14,7 @@ for f in sorted(os.listdir(os.path.join(root, 'seeded'))):
                 res[parts[0]] = (parts[1], parts[2], parts[3])
 rows = []
 caught_first = missed_first = caught_now = 0
-for s in sorted(hist, key=lambda x: (x.split('-')[0], {'a': 0, 'b': 1, 'c': 2, 'r2': 3, 'r3': 4}[x.split('-')[1]])):
+for s in sorted(hist, key=lambda x: (x.split('-')[0], {'a': 0, 'b': 1, 'c': 2, 'r2': 3, 'r3': 4, 'r4': 5}[x.split('-')[1]])):
     m = json.load(open(os.path.join(root, 'seeded', s, 'meta.json')))
     summ = re.sub(r'\s+', ' ', m.get('summary', '')).replace('|', '/')
     if len(summ) > 150:
